@@ -7,6 +7,7 @@ import (
 	"fmt"
 	"os"
 	"path/filepath"
+	"time"
 )
 
 type c07Pres struct {
@@ -101,12 +102,27 @@ func c07process(ctx *Ctx) {
 				salt := genBytes(32, ss)
 				payload := []byte(fmt.Sprintf("c07p-%d-%d", hi, len(pres)))
 				res := probeTCP(pool.dialAddr(l), pk, tcpHandshake(pk, salt, tg.tcpAddr, payload), payload)
-				p := c07Pres{Listener: li, ID: id, Salt: ss, Gen: gen, Served: res.Echo}
-				// server-side status
-				for _, e := range d.events() {
-					if e.Kind == "tcpclosed" {
-						p.Status = e.Status
+				p := c07Pres{Listener: li, ID: id, Salt: ss, Gen: gen}
+				// the server's own record of THIS connection (it reports the close a little after
+				// the socket closes: poll for it)
+				tuple := res.Local + "|" + pool.dialAddr(l)
+				conn := -1
+				for try := 0; try < 400 && p.Status == ""; try++ {
+					for _, e := range d.events() {
+						if e.Kind == "tcpopen" && e.Client+"|"+e.Local == tuple {
+							conn = e.Conn
+						}
+						if e.Kind == "tcpclosed" && e.Conn == conn && conn >= 0 {
+							p.Status = e.Status
+						}
 					}
+					if p.Status == "" {
+						time.Sleep(5 * time.Millisecond)
+					}
+				}
+				p.Served = p.Status == "OK"
+				if p.Served != res.Echo {
+					ctx.Count("process:echo-differs-from-status")
 				}
 				key := fmt.Sprintf("%s|%d", id, ss)
 				at := len(pres)
